@@ -23,10 +23,12 @@ res["feature_tests_with_change"] = t2.stdout.strip().splitlines()
 os.makedirs(os.path.join(WT, "tests"), exist_ok=True)
 shutil.copy(demo, os.path.join(WT, "tests", "demo_seed.rs"))
 prof = "--release" if "release" in open(os.path.join(src, "meta.json")).read() else ""
-d1 = sh("cd %s && cargo test --offline %s --features backend-mmap,backend-bitmap --test demo_seed -- --test-threads 1 2>&1 | grep -E '^test result|error' | head -3" % (WT, prof))
+if os.environ.get("SEED_PROFILE") == "debug":
+    prof = ""
+d1 = sh("cd %s && cargo test --offline %s --features backend-mmap,backend-bitmap --test demo_seed -- --test-threads 1 2>&1 | grep -E '^test result|^error:' | head -4" % (WT, prof))
 res["demo_with_change"] = d1.stdout.strip().splitlines()
 sh("git -C %s apply -R %s" % (WT, patch))
-d2 = sh("cd %s && cargo test --offline %s --features backend-mmap,backend-bitmap --test demo_seed -- --test-threads 1 2>&1 | grep -E '^test result|error' | head -3" % (WT, prof))
+d2 = sh("cd %s && cargo test --offline %s --features backend-mmap,backend-bitmap --test demo_seed -- --test-threads 1 2>&1 | grep -E '^test result|^error:' | head -4" % (WT, prof))
 res["demo_without_change"] = d2.stdout.strip().splitlines()
 os.remove(os.path.join(WT, "tests", "demo_seed.rs"))
 sh("git -C %s checkout -- . && git -C %s clean -fdq -e target" % (WT, WT))
